@@ -59,6 +59,12 @@ inline globals& g() {
   return x;
 }
 
+// per-thread visit counters (lets a harness ask "did my call pass through site N?")
+inline uint32_t* tl_hits() {
+  thread_local uint32_t h[MAX_SITES] = {};
+  return h;
+}
+
 inline rng& trng() {
   thread_local rng r(g().seed.load(std::memory_order_relaxed) * 1000003ull +
                      g().thread_counter.fetch_add(1, std::memory_order_relaxed) + 17);
@@ -230,8 +236,10 @@ inline args parse_args(int argc, char** argv) {
 #if !defined(VF_NO_HOOK_DEFINITION)
 extern "C" void unifex_verif_point(unsigned site) noexcept {
   auto& G = vf::mt::g();
-  if (site < vf::mt::MAX_SITES)
+  if (site < vf::mt::MAX_SITES) {
     G.hits[site].fetch_add(1, std::memory_order_relaxed);
+    ++vf::mt::tl_hits()[site];
+  }
   if (G.perturb.load(std::memory_order_relaxed))
     vf::mt::perturb_here(site == G.victim.load(std::memory_order_relaxed));
 }
